@@ -337,6 +337,18 @@ class PosSim:
                             self.infeasible = True       # contradicts what the path established earlier (e.g. capacity 1 only)
                             return self
                         self.items = [x for x in pre if isinstance(x, Mark)] + self.items[idx:]
+                if c[0] == 'IS_LAST_USED' and c[2] is True and isinstance(c[1][0], Ent) and self.mark is not None and self.moved:
+                    # tested AFTER the path moved nodes (`do_access(e); ... if (pos != std::prev(end_of_used))`): the node is the last used
+                    # one now, so nothing lies between it and the partition
+                    n = self.find_ent(c[1][0])
+                    if n is not None and n in self.items and self.mark in self.items:
+                        i0, i1 = self.items.index(n), self.items.index(self.mark)
+                        if i0 < i1:
+                            mid = self.items[i0 + 1:i1]
+                            if any(isinstance(x, Node) or (isinstance(x, Gap) and x.nonempty) for x in mid):
+                                self.infeasible = True
+                                return self
+                            self.items = self.items[:i0 + 1] + self.items[i1:]
                 continue
             if k == 'loop':
                 lp, segs = seg.loops[i]
